@@ -491,3 +491,10 @@ func Diff(want, got Rows) string {
 	}
 	return fmt.Sprintf("missing=%v unexpected=%v (want %d rows, got %d)", onlyWant, onlyGot, len(want), len(got))
 }
+
+// MakeCurrent makes w the world that the hooks resolve clients in (after another world was used meanwhile).
+func (w *World) MakeCurrent() {
+	curMu.Lock()
+	cur = w
+	curMu.Unlock()
+}
